@@ -204,6 +204,15 @@ def pixel_correspondence(res, trr, tru, nscenes, npix):
 
 
 # ---------------------------------------------------------------- oracle: render vs rays, per pixel
+def hfield_side_hit(m, d, g, p, v, dist):
+  """is the hit point of rays() on hfield geom g on its base box or a side wall (not on the top surface)?"""
+  hid = int(m.geom_dataid[g])
+  sx, sy, sz, _ = m.hfield_size[hid]
+  R = d.geom_xmat[g].reshape(3, 3)
+  q = R.T @ (np.asarray(p, dtype=np.float64) + dist * np.asarray(v, dtype=np.float64) - d.geom_xpos[g])
+  return bool(abs(q[0]) >= sx * (1 - 1e-4) or abs(q[1]) >= sy * (1 - 1e-4) or q[2] < -1e-5)
+
+
 def near_discontinuity(m, d, p, v, gg, rg, rdist, rng, k=10, eps=5e-4):
   import props.C34 as C34
 
@@ -243,6 +252,9 @@ def compare_camera(m, mm, dd, rc, cam, groups, cull, rng, ds, nworld=2, w=W, h=H
         exp_seg = (g, OBJ_GEOM) if g >= 0 else (-1, -1)
         if cull and g >= 0 and float(np.dot(vec[wd, py * w + px], nrm[wd, py, px])) > 0:
           ndisc += 1  # the nearest hit is a back face: the renderer culls it and sees what is behind (not given by rays())
+          continue
+        if g >= 0 and int(m.geom_type[g]) == 1 and hfield_side_hit(m, ds[wd], g, pnt[wd, py * w + px], vec[wd, py * w + px], float(dist[wd, py, px])):
+          ndisc += 1  # base box / side wall of a height field: the open finding C35:render:hfield-base-and-sides-not-rendered
           continue
         sg = tuple(int(v) for v in seg[wd, py, px])
         if sg[1] == OBJ_FLEX:
@@ -384,6 +396,52 @@ def oracle_flex_refit(res, nscenes):
   return allf
 
 
+def oracle_hfield_render(res, nscenes, max_n=7):
+  """structured (piecewise-planar) height fields seen FROM ABOVE by cameras inside the footprint (every pixel
+  ray reaches the top surface first, or nothing: no base / side-wall hits, which are the open finding): rendered
+  depth / segmentation vs rays() per pixel, nworld 1-2, perspective and orthographic cameras."""
+  rng = np.random.default_rng(vlib.seed() + 3504)
+  allf, ncmp, ndisc, nhf = [], 0, 0, 0
+  for s in range(nscenes):
+    nr, nc = int(rng.integers(2, max_n + 1)), int(rng.integers(2, max_n + 2))
+    kind = G.TERRAINS[s % len(G.TERRAINS)]
+    # cameras INSIDE the footprint, above the field, looking down the geom's -z with a small tilt: every pixel ray
+    # starts above the terrain inside the footprint, so its first hfield hit (if any) is on the top surface
+    def cams(hpos, R, sx, sy, sz):
+      out = ""
+      mn = min(sx, sy)
+      for c in range(2):
+        lx, ly = rng.uniform(-0.1, 0.1, 2) * mn
+        x = np.array([1.0, rng.normal(0, 0.1), rng.normal(0, 0.06)])
+        x /= np.linalg.norm(x)
+        y = np.cross([0, 0, 1.0], x) + np.array([0, 0, rng.normal(0, 0.06)])
+        y -= x * np.dot(x, y)
+        y /= np.linalg.norm(y)
+        extra = f'projection="orthographic" fovy="{G.fmt([0.9 * mn])}"' if c == 1 and s % 2 else f'fovy="{G.fmt([rng.uniform(25, 45)])}"'
+        out += f'<camera name="c{c}" pos="{G.fmt(hpos + R @ np.array([lx, ly, sz + rng.uniform(0.6, 1.0)]))}" xyaxes="{G.fmt(R @ x)} {G.fmt(R @ y)}" {extra}/>'
+      return out
+
+    xml, kind = G.terrain_scene(rng, nr, nc, kind, cameras=cams)
+    nworld = 1 + s % 2
+    m, ds, mm, dd = build(xml, rng, nworld=nworld)
+    groups = (0, 1, 2, 3, 4, 5)
+    rc = render(m, mm, dd, bool(s % 2), groups, nworld=nworld)
+    for c in range(2):
+      n, nd, fails = compare_camera(m, mm, dd, rc, c, groups, bool(s % 2), rng, ds, nworld=nworld)
+      ncmp += n
+      ndisc += nd
+      for f in fails:
+        f.update(xml=xml, qpos=[d.qpos.tolist() for d in ds], nworld=nworld, cull=bool(s % 2), groups=list(groups), terrain=kind, structured_hfield=True)
+      allf += fails
+    nhf += int((rc.seg_data.numpy()[:, :, 0] == 0).sum())
+    res.nontrivial(("hfr", xml[:300]))
+    if s == 0:
+      res.sample({"kind": "oracle render vs rays, structured height field from above", "terrain": kind, "nrow": nr, "ncol": nc, "nworld": nworld})
+  res.count(ncmp)
+  res.extra.setdefault("oracle_render_vs_rays", {})["structured-hfield-top"] = {"pixels": ncmp, "hfield_pixels": nhf, "discarded": ndisc, "disagree": len(allf)}
+  return allf
+
+
 # ---------------------------------------------------------------- directed probes of recorded defects
 def probe_scene(xml, cull=False, groups=(0, 1, 2, 3, 4, 5), qpos=None, camera=0, nworld=2):
   """render one camera of a fixed scene (nworld=2) and compare every pixel with rays along the property's
@@ -457,6 +515,8 @@ def probes(res):
 def classify(f):
   if f["kind"] == "refit-layout":
     return "C35:refit:scene-bvh-leaf-layout"
+  if f.get("structured_hfield") and f["kind"] == "pixel":
+    return "C35:oracle:render-vs-rays:structured-hfield-top"
   if f.get("flex") and f["kind"] == "pixel" and f.get("world", 0) >= 1:
     return "C35:oracle:render-vs-rays-after-refit:flex-scene-world>=1"
   if f["kind"] != "pixel":
@@ -501,6 +561,7 @@ def run(res):
   fails = oracle(res, 10 if quick else 140, G.PRIMS, "primitives")
   fails += oracle(res, 6 if quick else 80, G.PRIMS + ("mesh",), "with-mesh", meshes=("cube", "octa", "pyr"))
   fails += oracle_flex_refit(res, 6 if quick else 60)
+  fails += oracle_hfield_render(res, 8 if quick else 72)
   ext = launch_stride_extraction()
   okx = len(ext) == 2 and all(a == "total_bvh_size" and t is not None and t.replace(" ", "") == "rc.bvh_ngeom+rc.bvh_nflexgeom" for a, t in ext.values())
   res.obligation("launch extraction: build_scene_bvh and refit_scene_bvh pass total_bvh_size = rc.bvh_ngeom + rc.bvh_nflexgeom as _compute_bvh_bounds' per-world stride",
